@@ -4,6 +4,8 @@ package main
 // the real reader with recover + timeout; the model reads the same bytes.
 
 import (
+	"bytes"
+	"compress/zlib"
 	"encoding/binary"
 	"encoding/hex"
 	"fmt"
@@ -212,10 +214,21 @@ func runHostile(c *ctx) error {
 				parts = append(parts, withTimeout(func() string { return runQuery(rd, q) }))
 			}
 		}
+		if rd != nil {
+			if m, err := reftable.NewMerged([]reftable.Table{rd}, rd.HashID()); err == nil {
+				for _, q := range qs {
+					q := q
+					switch r := withTimeout(func() string { return runQuery(m, q) }); r {
+					case "panic", "hang":
+						parts = append(parts, "merged-"+r)
+					}
+				}
+			}
+		}
 		runtime.ReadMemStats(&m1)
 		// allocation must stay proportional to the input (what zlib can expand a stream to is
 		// itself linear in the stream): everything allocated while opening and querying
-		if alloc := m1.TotalAlloc - m0.TotalAlloc; alloc > 64<<20+uint64(len(qs)+1)*4096*uint64(len(data)) {
+		if alloc := m1.TotalAlloc - m0.TotalAlloc; alloc > uint64(len(qs)+2)*(40<<20+64*uint64(len(data))) {
 			parts = append(parts, fmt.Sprintf("alloc(%dMB)", alloc>>20))
 		} else if alloc > maxAlloc {
 			maxAlloc = alloc
@@ -229,11 +242,18 @@ func runHostile(c *ctx) error {
 				outcomes["records"]++
 			}
 		}
-		c.emit("hostile", hx(data)+"|"+strings.Join(qs, ","), strings.Join(parts, "|"))
+		cmd := "hostile"
+		if kind == "zlib-bomb" {
+			cmd = "hostilebomb" // judged (panic / hang / allocation), not tied: the model would inflate it all
+		}
+		c.emit(cmd, hx(data)+"|"+strings.Join(qs, ","), strings.Join(parts, "|"))
 	}
 	stdq := []string{"sr:", "sr:" + hxs("m"), "sr:" + hxs("refs/heads/zzzz"), fmt.Sprintf("sl::%d", ^uint64(0)), "sl:" + hxs("m") + ":0", "rf:" + strings.Repeat("6d", 20)}
 	for _, w := range hostileCorpus() {
 		do("corpus", w, stdq)
+	}
+	for _, mb := range []int{8, 48} {
+		do("zlib-bomb", zlibBomb(mb<<20), []string{fmt.Sprintf("sl::%d", ^uint64(0))})
 	}
 	ncraft := 400
 	if c.thorough() {
@@ -396,4 +416,23 @@ func runHostile(c *ctx) error {
 	c.stats["mutation_kinds"] = kinds
 	c.stats["outcome_classes"] = outcomes
 	return nil
+}
+
+// a log-only table whose single block declares 4096 bytes but whose zlib stream inflates to n zero bytes
+func zlibBomb(n int) []byte {
+	hdr, _ := hex.DecodeString("524546540100100000000000000000000000000000000000")
+	var z bytes.Buffer
+	zw := zlib.NewWriter(&z)
+	zeros := make([]byte, 1<<16)
+	for w := 0; w < n; w += len(zeros) {
+		zw.Write(zeros)
+	}
+	zw.Close()
+	body := append(append([]byte{}, hdr...), 'g', 0, 0x10, 0)
+	body = append(body, z.Bytes()...)
+	foot := append([]byte{}, hdr...)
+	foot = append(foot, make([]byte, 40)...)
+	var cs [4]byte
+	binary.BigEndian.PutUint32(cs[:], crc32.ChecksumIEEE(foot))
+	return append(body, append(foot, cs[:]...)...)
 }
